@@ -209,9 +209,17 @@ class Crate:
         self.bodies = {}
         # private helper functions are spliced into their callers before any analysis (see inline.py)
         import inline
-        self.inlined = inline.inline_crate(data["bodies"]) if not data.get("_inlined") else {}
+        if not data.get("_inlined"):
+            self.inlined = inline.inline_crate(data["bodies"])
+            self.inlined_async = inline.inline_async(data["bodies"])
+        else:
+            self.inlined, self.inlined_async = {}, {}
         data["_inlined"] = True
+        self.absorbed = {}
         for b in data["bodies"]:
+            if b.get("absorbed"):
+                self.absorbed[b["id"]] = Body(b, self)      # helper fully inlined into its callers
+                continue
             self.bodies[b["id"]] = Body(b, self)
         self.adts = {a["n"]: a for a in data["adts"]}
         self.impls = data["impls"]
@@ -564,6 +572,7 @@ def bool_transfer(body, bb, known, pins=None):
             continue
         rv = s["rv"]
         val = None
+        pay = None                      # known value of the single payload of an enum value being built / moved
         r = rv["r"]
         if r == "use":
             o = rv["o"]
@@ -575,12 +584,28 @@ def bool_transfer(body, bb, known, pins=None):
                 src = op_local(o)
                 if src is not None and src in known:
                     val = known[src]
+                    pay = known.get((src, "payload"))
+                elif src is None:
+                    # `x = move (y as Variant).0`: the payload of a value built on this path
+                    pl = op_place(o)
+                    if pl is not None:
+                        pj = [e for e in pl["p"] if e != "deref"]
+                        if len(pj) == 2 and isinstance(pj[0], dict) and "dc" in pj[0] and isinstance(pj[1], dict) and pj[1].get("f") == 0 \
+                                and known.get(pl["l"], ("?",))[0] == "v" and known[pl["l"]][1] == pj[0]["dc"]:
+                            val = known.get((pl["l"], "payload"))
+                            if val is not None and val[0] == "vp":
+                                val, pay = val[1], val[2]
         elif r == "un" and rv.get("op") == "Not":
             src = op_local(rv["a"])
             if src is not None and known.get(src, ("?",))[0] == "b":
                 val = ("b", not known[src][1])
         elif r == "agg" and rv.get("kind") == "adt" and isinstance(rv.get("variant"), int):
             val = ("v", rv["variant"])
+            if len(rv.get("ops", [])) == 1:
+                src = op_local(rv["ops"][0])
+                if src is not None and src in known:
+                    inner = known[src]
+                    pay = ("vp", inner, known.get((src, "payload"))) if inner[0] == "v" else inner
         elif r == "discr":
             p = rv["p"]
             if not [e for e in p["p"] if e != "deref"] and known.get(p["l"], ("?",))[0] == "v":
@@ -608,11 +633,17 @@ def bool_transfer(body, bb, known, pins=None):
             val = pins[dl]
         if val is None:
             known.pop(dl, None)
+            known.pop((dl, "payload"), None)
         else:
             known[dl] = val
+            if pay is not None:
+                known[(dl, "payload")] = pay
+            else:
+                known.pop((dl, "payload"), None)
     t = blk["term"]
     if t["t"] == "call" and not t["dest"]["p"]:
         dl = t["dest"]["l"]
+        known.pop((dl, "payload"), None)
         val = None
         if callee(t) == _TRY_BRANCH and len(t["args"]) == 1:
             src = op_local(t["args"][0])
